@@ -139,6 +139,7 @@ def classify(diag, text, genmap, byte_of_char=None):
         return byte_of_char(b) if byte_of_char else b
 
     off = char_off(p)
+    res["gen_off"] = off
     res["frag"] = enclosing_frag(genmap, text, off)
     e = locate(genmap, off)
     if e is not None and e[3] is not None:
@@ -238,3 +239,28 @@ def classify(diag, text, genmap, byte_of_char=None):
     else:
         res["kind"] = "frontend"
     return res
+
+
+def enclosing_lemma_labels(text, off):
+    """For a failure inside a hand-written proof function of the spec library (no /repo fragment around it): the labels of that
+    function's own `requires` / `ensures` clauses. A failed step inside a lemma means the lemma is not established, so the failure is
+    charged to the properties its statement is labelled with. Returns (fn name, [label], [props])."""
+    hdr = None
+    for m in re.finditer(r"(?m)^\s*(?:pub\s+)?(?:broadcast\s+)?proof\s+fn\s+(\w+)", text[:off]):
+        hdr = m
+    if hdr is None:
+        return None, [], []
+    body = re.compile(r"\n\{").search(text, hdr.end())
+    if body is None or body.start() > off:
+        # the failure is in the header itself (a requires / ensures clause): labels up to the failure's line end
+        end = text.find("\n{", hdr.end())
+        end = end if end >= 0 else off
+    else:
+        end = body.start()
+    labs, props = [], []
+    for m in LABEL_RE.finditer(text, hdr.end(), end):
+        labs.append(m.group(1))
+        for x in (m.group(2) or "").split(","):
+            if x and x not in props:
+                props.append(x)
+    return hdr.group(1), labs, props
